@@ -386,6 +386,16 @@ class Executor(Engine):
     def apply_contract(self, q, binding, st, where):
         """Caller side: check requires, split into exceptional / normal outcomes, assume ensures."""
         c = self.ctx
+        # an Optional actual for a non-Optional formal: safety obligation `is not None`, then unwrap
+        cnode = self.contracts[q]
+        for a in cnode.args.args + cnode.args.kwonlyargs:
+            v = binding.get(a.arg)
+            ann = ast.unparse(a.annotation) if a.annotation is not None else ""
+            if isinstance(v, VOpt) and "None" not in ann:
+                c.oblige(f"{where}:argument {a.arg} of {q} is not None", "safety", st.pc, Not(v.isnone), where)
+                st = st.assume(Not(v.isnone))
+                binding = dict(binding)
+                binding[a.arg] = v.val
         parts = self.contract_parts(q, binding, st)
         for t, src in parts["requires"]:
             c.oblige(f"{where}:precondition of {q}: {src}", "precondition", st.pc, t, where)
